@@ -34,17 +34,22 @@ CFG = dict(
     level_text="C18_lint_exit / C18_formats_agree / C18_stdin_agrees / C18_fix / C18_fix_stdin are closed Coq theorems for every list of "
                "violation lists: lint exits 1 iff a non-warning violation is reported, all three formats report every violation and agree, "
                "stdin decides like a one-file path run, fix exits 1 iff an unfixable violation was found, writes every file's fixed text and "
-               "nothing when nothing is reported. The model is tied to the binary built from the tree on every run.",
+               "nothing when nothing is reported. C18_lint_order / C18_lint_shared / C18_verbosity_agree: with the formatter as one object whose has_fail "
+               "state is threaded through the dispatches, the exit code and every file's lines are independent of the dispatch order, of the "
+               "configured verbosity (0 upwards) and of the format. The model is tied to the binary built from the tree on every run.",
     level_note="Trusted: Coq kernel; hand-written model (tie = sampled correspondence); that path, directory and stdin entry points hand the "
                "same violations to the formatter as Linter::lint_string is established by the correspondence runs only; the text of the "
                "printed lines is abstracted to (line, column, rule code); no violation with warning=true exists in today's code.",
     rule="generated contents (1-3 files of 1-3 statements drawn from fixable / unfixable / clean / unparsable / malformed-noqa pools, or a "
-         "rule-fixture snippet; no '-- sqlfluff' lines: C03) x 8 rule selections x 5 dialects x --parsing-errors on/off (the second file in a sub-directory): `sqruff lint` in formats "
-         "{human, github-annotation-native, json} x modes {directory, path, stdin} parsed to (line, col, rule) multisets + exit status, "
+         "rule-fixture snippet; no '-- sqlfluff' lines: C03) x 8 rule selections x 5 dialects x --parsing-errors on/off (the second file in a sub-directory) x formatter keys of the configuration (verbose 0..2, nocolor): `sqruff lint` in formats "
+         "{human, github-annotation-native, json} x modes {directory, path, stdin, all files as arguments in a generated order, the reverse order with "
+         "the sub-directory given as a directory (both with one worker thread: dispatch order = argument order)} parsed to (line, col, rule) "
+         "multisets + header (PASS/FAIL) per file + exit status, "
          "`sqruff fix --force` on a directory and on a path (exit status, mtimes, contents) and `sqruff fix -` (stdout, exit status), each "
          "compared with the Gallina model fed with Linter::lint_string's violations / fix_string for the same content, and directly with "
          "the property text. non-trivial = at least one violation in the linted files",
     assumptions=["H_flags (monitored, blocking): no violation carries ignore=true",
                  "contents are ASCII without '-- sqlfluff' in-file configuration lines (stdin mode panics on those: C03)",
+                 "verbose is within its documented range 0-2 (below 0 the human format is silent and exits 0: C18_human_quiet)",
                  "the library reference is Linter::lint_string with the same configuration text the binary reads through --config"],
 )
